@@ -358,6 +358,14 @@ def r06_4_caller(ctx, m):
         defs = [st for st in walk_stmts(run.node.body) if isinstance(st, ast.Assign) and norm(st.targets[0]) == it.id]
         bad = [norm(d.value) for d in defs if isinstance(d.value, ast.Call) and norm(d.value.func) in ("sorted", "set", "reversed", "list") and d.value.args and isinstance(d.value.args[0], ast.Call) and norm(d.value.args[0].func) in ("sorted", "set", "reversed")]
         bad += [norm(d.value) for d in defs if isinstance(d.value, ast.Call) and norm(d.value.func) in ("sorted", "set", "reversed")]
+        # a comprehension / filter that walks another collection and keeps the requested names: the order becomes that collection's
+        for d in defs:
+            v_ = d.value
+            if isinstance(v_, (ast.ListComp, ast.GeneratorExp)) and len(v_.generators) == 1:
+                g_ = v_.generators[0]
+                src_names = {x.id for x in ast.walk(g_.iter) if isinstance(x, ast.Name)}
+                if it.id not in src_names and any(isinstance(c_, ast.Compare) and isinstance(c_.ops[0], ast.In) and norm(c_.comparators[0]) == it.id for i_ in g_.ifs for c_ in ast.walk(i_)):
+                    bad.append(norm(v_))
         ctx.check(not bad, "R06.4", run.where(m.loop), "the requested chromosome order is not re-sorted or de-duplicated", key_of(run, f"order-rewritten:{bad}"), found=bad)
     # counter initialised to a constant before the loop, and not otherwise written in the loop
     inits = [st for st in run.node.body if isinstance(st, ast.Assign) and norm(st.targets[0]) == counter]
@@ -581,7 +589,7 @@ def r06_8(ctx, m):
         for lp in walk_own(f.node):
             if not isinstance(lp, ast.For):
                 continue
-            diffs = [st for st in lp.body if isinstance(st, ast.Assign) and isinstance(st.value, ast.Call) and isinstance(st.value.func, ast.Attribute) and st.value.func.attr == "difference" and norm(st.value.func.value) == norm(lp.target)]
+            diffs = [st for st in lp.body if isinstance(st, ast.Assign) and isinstance(st.value, ast.Call) and isinstance(st.value.func, ast.Attribute) and st.value.func.attr == "difference" and norm(st.value.func.value) in ({norm(lp.target)} | ({norm(e_) for e_ in lp.target.elts} if isinstance(lp.target, ast.Tuple) and isinstance(lp.iter, ast.Call) and norm(lp.iter.func) == "enumerate" else set()))]
             if diffs:
                 site = (f, lp, diffs[0])
     if site is None:
@@ -694,6 +702,16 @@ def r06_10(ctx, m):
                 enum_vars = {e_.id for l in walk_own(dec.node) if isinstance(l, ast.For) and any(x is c for x in ast.walk(l)) and isinstance(l.iter, ast.Call) and norm(l.iter.func) == "enumerate" and isinstance(l.target, ast.Tuple) for e_ in [l.target.elts[0]] if isinstance(e_, ast.Name)}
                 running = any(isinstance(x, ast.Call) and norm(x.func) == "len" and x.args and norm(x.args[0]) in appended for h in holes for x in ast.walk(h)) or bool(hnames & (counters | enum_vars))
                 ends_vars = {st.targets[0].id for st in walk_stmts(lp.body) if isinstance(st, ast.Assign) and isinstance(st.targets[0], ast.Name) and (".intersection(" in norm(st.value) or (isinstance(st.value, ast.BinOp) and isinstance(st.value.op, ast.BitAnd)))}
+                # the number in the id is read back as a position in the list of bubbles (`bubbles[int(id.split(" ")[1])]`):
+                # it must be the position the bubble is appended at, not a count over all components
+                readers = [x for x in walk_own(dec.node) if isinstance(x, ast.Subscript) and isinstance(x.value, ast.Name) and x.value.id in appended and "int(" in norm(x.slice) and ".split(" in norm(x.slice)]
+                if readers and running:
+                    lst_ = readers[0].value.id
+                    positional = any(isinstance(x, ast.Call) and norm(x.func) == "len" and x.args and norm(x.args[0]) == lst_ for h in holes for x in ast.walk(h))
+                    if not positional and (hnames & enum_vars):
+                        ev_ = sorted(hnames & enum_vars)[0]
+                        ctx.violated("R06.10", dec.where(c), f"a bubble's id is numbered by `{ev_}`, the position of its component among all biconnected components, but `{norm(readers[0])[:60]}` reads the number back as a position in `{lst_}`, which holds only the components with inner nodes: after a component without inner nodes (two scaffold nodes joined by a plain link) the numbers no longer agree and the wrong bubble is looked up (or IndexError)", key_of(dec, f"bubble-id-vs-position:{ev_}"))
+                        continue
                 if running:
                     ctx.holds("R06.10", dec.where(c), "the variable part of a bubble's id is a running index: no two bubbles share an id")
                 elif hnames and hnames - {"sorted", "str", "list", "tuple"} <= ends_vars:
